@@ -1235,9 +1235,9 @@ func (t *tree) expect(expected itemType, context string) item {
 // unexpected complains about the token and terminates processing.
 func (t *tree) unexpected(token item, context string) {
 	if token.typ == itemError {
-		t.errorf("lexical error: %v", token)
+		t.errorfAt(token.pos, "lexical error: %v", token)
 	}
-	t.errorf("unexpected %v in %s", token, context)
+	t.errorfAt(token.pos, "unexpected %v in %s", token, context)
 }
 
 // errorf formats the error and terminates processing.
@@ -1247,14 +1247,20 @@ func (t *tree) errorf(format string, args ...interface{}) {
 	if t.peekCount > 0 {
 		tok = t.token[t.peekCount-1]
 	}
+	t.errorfAt(tok.pos, format, args...)
+}
+
+// errorfAt formats the error, reporting it at the given position of the input,
+// and terminates processing.
+func (t *tree) errorfAt(pos ast.Pos, format string, args ...interface{}) {
 	t.root = nil
 	format = fmt.Sprintf("template %s:%d:%d: %s", t.name,
-		t.lex.lineNumber(tok.pos), t.lex.columnNumber(tok.pos), format)
+		t.lex.lineNumber(pos), t.lex.columnNumber(pos), format)
 	panic(
 		errortypes.NewErrFilePosf(
 			t.name,
-			t.lex.lineNumber(tok.pos),
-			t.lex.columnNumber(tok.pos),
+			t.lex.lineNumber(pos),
+			t.lex.columnNumber(pos),
 			format,
 			args...,
 		),
